@@ -337,7 +337,7 @@ def eval_schedule(img, seg, params, order, executor, serial=None):
         out, log = run_scheduled(img, seg, params, order, executor)
     except Exception as e:  # noqa: BLE001
         return [(f'schedule/exception-{executor}', f'nproc=2 order={order} raised {e!r}')], 0
-    if order != 'native' and not log.get('used'):
+    if order != 'native' and not log.get('used') and params['contrast'] != 1:
         viol.append(('schedule/patch-not-reached', 'the patched as_completed was never called (driver cannot steer the order)'))
     diff = same_output(serial, out)
     if diff:
